@@ -304,3 +304,13 @@ func (dr *DialogueRunner) VerifCallFunction(name string, args []*variable.Value)
 func (dr *DialogueRunner) VerifCallCommand(name string, args []*variable.Value) <-chan error {
 	return dr.commandStorer.call(name, args)
 }
+
+// VerifInt64ToSeed is the textual seed derived from a random value when the seed string is empty.
+func VerifInt64ToSeed(value int64) (seed string, panicked string) {
+	defer func() {
+		if r := recover(); r != nil {
+			panicked = fmt.Sprint(r)
+		}
+	}()
+	return rng.VerifInt64ToSeed(value), ""
+}
